@@ -23,6 +23,7 @@ struct Runtime {
   int64_t run_index = -1;
   const char* phase = "";
   uint64_t seed = 0;
+  char tags[256] = {0};          // input preconditions of the running case (space separated), for crash markers
   // Per-run collections, reset by begin_run().
   std::vector<UbReport> ub;
   std::vector<RaceReport> races;
